@@ -662,6 +662,83 @@ func lightMedium(c *Ctx, prop string, undo bool, collect ...string) {
 			}
 		}
 	}
+	// multi-tree family: forests of three to five trees (14, 15 leaves; thorough also 28, 30, 31); the second block
+	// takes from EVERY tree independently one of {nothing, its first leaf, its last leaf, all but its first leaf, the
+	// whole tree} (5^trees assignments) and adds 0..3 leaves, so that trees are emptied in the middle of the touched
+	// range while the additions carry over them.
+	mtNs := []int{14, 15}
+	if c.Thorough() {
+		mtNs = []int{14, 15, 28, 30, 31}
+	}
+	c.Cov.Bound["multi_tree.N"] = fmt.Sprint(mtNs)
+	for _, N := range mtNs {
+		type tr struct{ a, n int }
+		var trees []tr
+		for a, h := 0, 30; h >= 0; h-- {
+			if N&(1<<uint(h)) != 0 {
+				trees = append(trees, tr{a, 1 << uint(h)})
+				a += 1 << uint(h)
+			}
+		}
+		var all, evens []int
+		for i := 0; i < N; i++ {
+			all = append(all, i)
+			if i%2 == 0 {
+				evens = append(evens, i)
+			}
+		}
+		rems := [][]int{all, evens}
+		if prop == "C11" {
+			rems = [][]int{{}}
+		}
+		total := 1
+		for range trees {
+			total *= 5
+		}
+		for code := 1; code < total; code++ {
+			var S []int
+			cc := code
+			for _, t := range trees {
+				ch := cc % 5
+				cc /= 5
+				switch ch {
+				case 1:
+					S = append(S, t.a)
+				case 2:
+					if t.n > 1 {
+						S = append(S, t.a+t.n-1)
+					}
+				case 3:
+					for i := 1; i < t.n; i++ {
+						S = append(S, t.a+i)
+					}
+				case 4:
+					for i := 0; i < t.n; i++ {
+						S = append(S, t.a+i)
+					}
+				}
+			}
+			if len(S) == 0 {
+				continue
+			}
+			for _, R := range rems {
+				for _, k := range []int{0, 1, 2, 3} {
+					kr := make([]int, k)
+					for i := range kr {
+						kr[i] = i
+					}
+					if prop == "C11" {
+						kr = []int{}
+					}
+					h := []Op{{Kind: "block", Adds: N, Rem: R}, {Kind: "block", Dels: S, Adds: k, Rem: kr}}
+					if undo {
+						h = append(h, Op{Kind: "undo"})
+					}
+					jobs = append(jobs, job{h})
+				}
+			}
+		}
+	}
 	// aligned-union family: one block deleting any union of up to three disjoint aligned blocks
 	// (whole subtrees and single leaves mixed). (a) 16 leaves, every union, remember all / even
 	// slots; (b) 32 leaves, unions confined to the left half, remember even slots or just two leaves
